@@ -85,11 +85,22 @@ func announced(h string) (f family, ok bool) {
 	return f, true
 }
 
+// baseType returns what stands before the first ';' or ',' of a header value.
+func baseType(h string) string {
+	if i := strings.IndexAny(h, ";,"); i >= 0 {
+		h = h[:i]
+	}
+	return strings.TrimSpace(h)
+}
+
 // announcedLoose is announced for possibly malformed strings: a malformed
 // string is classified by its raw suffix. Used only to describe the input
 // class of a known finding, never as an oracle.
 func announcedLoose(h string) family {
 	if f, ok := announced(h); ok {
+		return f
+	}
+	if f, ok := announced(baseType(h)); ok && baseType(h) != "" {
 		return f
 	}
 	f := familyOf(h)
@@ -480,9 +491,21 @@ func garbageGen() *rapid.Generator[string] {
 	)
 }
 
+// malformedParamGen: a media type of any class followed by a parameter list
+// that mime.ParseMediaType refuses (parameter without a value, empty name, the
+// same parameter twice with different values, a second type after a comma).
+func malformedParamGen() *rapid.Generator[string] {
+	return rapid.Custom(func(t *rapid.T) string {
+		base := rapid.OneOf(rapid.SampledFrom(supported), vendorGen(true), rapid.SampledFrom(unknownTypes)).Draw(t, "base")
+		tail := rapid.SampledFrom([]string{"; charset", "; =", "; charset=utf-8; charset=iso-8859-1", "; q", ", application/json", "; charset=\"utf-8", ";;x"}).Draw(t, "tail")
+		return base + tail
+	})
+}
+
 // anyTypeGen: one media-type-like string of any class.
 func anyTypeGen() *rapid.Generator[string] {
 	return rapid.OneOf(
+		malformedParamGen(),
 		supportedGen(), supportedGen(),
 		vendorGen(true), vendorGen(true),
 		vendorGen(false),
